@@ -385,6 +385,7 @@ var coreMu sync.Mutex
 
 var vouchersByV []*fdo.Voucher
 var blobByV []*cose.Sign1[protocol.To1d, []byte]
+var voucherG0b *fdo.Voucher // GUID of voucher 0, other content
 
 func (w *world) alphabet(thorough bool) []op {
 	out := w.alphabet0(thorough)
@@ -526,6 +527,26 @@ func (w *world) alphabet0(thorough bool) []op {
 		}})
 	}
 	out = append(out, op{"Clock(+90m)", func(w *world) { w.setNow(w.now.Add(90 * time.Minute)) }})
+	// a replacement that keeps the GUID (the same device under a voucher with other content): whether the store
+	// refuses it or performs it, a voucher for that GUID must be there afterwards - the old one or the new one
+	out = append(out, op{"ReplaceVoucher(g0->g0 other content)", func(w *world) {
+		err := w.db.ReplaceVoucher(w.ctx, guidOf(9, 0), voucherG0b)
+		g := guidOf(9, 0)
+		_, existed := w.m.vouchers[g]
+		got, gerr := w.db.Voucher(w.ctx, g)
+		switch {
+		case existed && gerr != nil:
+			w.viol("voucher-lost-by-same-guid-replacement", "ReplaceVoucher(g0 -> voucher with the same GUID) returned %v and no voucher for the GUID is left: %v", err, gerr)
+			delete(w.m.vouchers, g)
+		case gerr == nil:
+			// take the store's word for which of the two it holds; it must be one of them
+			if s := str(got); s == str(voucherG0b) || s == w.m.vouchers[g] {
+				w.m.vouchers[g] = s
+			} else {
+				w.viol("voucher-wrong", "after a same-GUID replacement the store holds neither the old nor the new voucher")
+			}
+		}
+	}})
 	out = append(out, op{"ReplaceVoucher(g0->g2)", func(w *world) {
 		err := w.db.ReplaceVoucher(w.ctx, guidOf(9, 0), vouchersByV[2])
 		_, oldExists := w.m.vouchers[guidOf(9, 0)]
@@ -739,6 +760,17 @@ func setup() {
 		b := &cose.Sign1[protocol.To1d, []byte]{Payload: cbor.NewByteWrap(protocol.To1d{RV: []protocol.RvTO2Addr{{DNSAddress: &dns, Port: 80, TransportProtocol: protocol.HTTPTransport}}, To0dHash: protocol.Hash{Algorithm: protocol.Sha256Hash, Value: make([]byte, 32)}})}
 		_ = b.Sign(keys.Get("ec256", "owner1"), nil, nil, nil)
 		blobByV = append(blobByV, b)
+	}
+	{
+		w := lab.NewWorld(keys.KindByName("ec256"), protocol.X509KeyEnc)
+		ov, err := w.Manufacture(context.Background(), 2)
+		if err != nil {
+			r.Fatal("voucher setup: %v", err)
+		}
+		ov.Header.Val.GUID = guidOf(9, 0)
+		ov.Header.Val.DeviceInfo = "same guid, other content"
+		ov.Entries = nil // ReplaceVoucher takes vouchers without extensions only
+		voucherG0b = ov
 	}
 	var err error
 	expDB, err = sqlite.Open(filepath.Join(scratch, "expected.sqlite"), "")
